@@ -150,7 +150,10 @@ def refute_query(hyps, goal, rounds=2, cap=300, bound=4):
         else:
             hflat.append(z3.simplify(h))
     ground = [f for f in hflat if not z3.is_quantifier(f)]
-    quants = [f for f in hflat if z3.is_quantifier(f)] + [f for f in ng if z3.is_quantifier(f)]
+    goal_quants = [f for f in ng if z3.is_quantifier(f)]
+    goal_q_ids = {f.get_id() for f in goal_quants}
+    goal_q_used = set()
+    quants = [f for f in hflat if z3.is_quantifier(f)] + goal_quants
     terms = index_terms(gground)
     if not terms:
         terms = index_terms(ground)[:6]
@@ -170,6 +173,8 @@ def refute_query(hyps, goal, rounds=2, cap=300, bound=4):
                 if key in seen_inst:
                     continue
                 seen_inst.add(key)
+                if q.get_id() in goal_q_ids:
+                    goal_q_used.add(q.get_id())
                 b = z3.simplify(z3.substitute_vars(q.body(), *reversed(tup)))
                 if z3.is_true(b):
                     continue
@@ -179,6 +184,10 @@ def refute_query(hyps, goal, rounds=2, cap=300, bound=4):
                     else:
                         new.append(p)
         new_all += new
+    if goal_q_ids - goal_q_used or any(not q.is_forall() or any(q.var_sort(i) != z3.IntSort() for i in range(q.num_vars())) for q in goal_quants):
+        # part of the negated goal is universally quantified (the goal has an existential) and could not be instantiated:
+        # a model of the rest says nothing about the goal
+        return None
     out = list({f.get_id(): f for f in ground + new_all + gground}.values())
     if bound is not None:
         for c in int_consts(out):
@@ -347,7 +356,11 @@ def discharge(obls, timeout_s=20, jobs=16, all_backends=False, keep_dir=None, re
                 cur = [i for i in left if verdicts[i] is None]
                 for i in cur:
                     try:
-                        refute_text[i] = to_smt2(refute_query(obls[i].hyps, obls[i].goal, bound=bound), get_model=True)
+                        rq = refute_query(obls[i].hyps, obls[i].goal, bound=bound)
+                        if rq is None:
+                            detail[i].append("refute:not-applicable(existential goal)")
+                            continue
+                        refute_text[i] = to_smt2(rq, get_model=True)
                     except Exception as ex:
                         detail[i].append(f"refute-build-error:{ex!r}"[:120])
                 cur = [i for i in cur if i in refute_text]
